@@ -589,12 +589,12 @@ func c13r5(c *core.Ctx) {
 			c.Undecided(spec.ctrl+".Handle", token.NoPos, "not found")
 			continue
 		}
-		reset := p.Func("hap/pair", "(*"+spec.ctrl+").reset")
-		rs := stepSummary(reset, spec.typ, "step", 3)
-		if rs.kind != 1 {
+		rsVal, _, rsOK := resetState(p, spec.ctrl, spec.typ)
+		if !rsOK {
 			c.Undecided(spec.ctrl+".reset", token.NoPos, "reset does not store one constant")
 			continue
 		}
+		rs := struct{ val int64 }{rsVal}
 		// the start handler: the one dispatched under the reset constant
 		var start *ssa.Function
 		for _, h := range mo.handlers {
@@ -655,8 +655,11 @@ func c13r5(c *core.Ctx) {
 			set, known, val := stepOnPath(pa, spec.typ, "step", nil)
 			// deferred resets
 			pa.Instrs(func(i ssa.Instruction) {
-				if d, ok := i.(*ssa.Defer); ok && d.Call.StaticCallee() == reset {
-					set, known, val = true, true, rs.val
+				if d, ok := i.(*ssa.Defer); ok && d.Call.StaticCallee() != nil {
+					// a deferred reset(), or the same store in a deferred closure
+					if e := stepSummary(d.Call.StaticCallee(), spec.typ, "step", 3); e.kind == 1 && e.val == rs.val {
+						set, known, val = true, true, rs.val
+					}
 				}
 			})
 			if !(set && known && val == rs.val) {
